@@ -327,8 +327,8 @@ SPECS["C03"] = dict(
     design_ref="5/C03",
     rule="TODO",
     jobs=[
-        rapid("TestC03Core", 600, 30000, sq=4, st=16),
-        rapid("TestC03Session", 120, 6000, sq=4, st=16),
+        rapid("TestC03Core", 600, 8000, sq=4, st=16),
+        rapid("TestC03Session", 120, 1500, sq=4, st=16),
     ],
 )
 
